@@ -3631,7 +3631,11 @@ func (d *jsonDecDriverBytes) nextValueBytes() []byte {
 
 	switch d.tok {
 	default:
-		_, d.tok = d.r.jsonReadNum()
+
+		var bs []byte
+		bs, d.tok = d.r.jsonReadNum()
+		d.r.stopRecording()
+		return bs
 	case 'n':
 		d.checkLit3([3]byte{'u', 'l', 'l'}, d.r.readn3())
 	case 'f':
@@ -7812,7 +7816,11 @@ func (d *jsonDecDriverIO) nextValueBytes() []byte {
 
 	switch d.tok {
 	default:
-		_, d.tok = d.r.jsonReadNum()
+
+		var bs []byte
+		bs, d.tok = d.r.jsonReadNum()
+		d.r.stopRecording()
+		return bs
 	case 'n':
 		d.checkLit3([3]byte{'u', 'l', 'l'}, d.r.readn3())
 	case 'f':
